@@ -18,6 +18,8 @@ def facts : Glob.Facts :=
   { reWrap := Generated.C21.reWrap, replacements := Generated.C21.replacements, doubleStar := Generated.C21.doubleStar,
     outDir := Generated.C21.outDir, hiddenPrefix := Generated.C21.hiddenPrefix, hiddenWrap := Generated.C21.hiddenWrap }
 
+def opts : MOpts := optsOfChain Generated.C21.replacements
+
 def plainName (n : Name) : Bool := validEntry n && n.all plainChar
 
 mutual
@@ -48,13 +50,13 @@ def selfCheck (comps : List Name) (w : Walked) (pats : List Name) : Bool :=
     | none => true
     | some segs =>
       -- `(`, `)`, `|` in a `**` pattern (or its package path) are regexp syntax to the code and literals to `structMatch`
-      let safe (r : List Name) := !hasDstar segs || (safePath false r && (p.all reSafe))
+      let safe (r : List Name) := !hasDstar segs || opts.escParens || (safePath (Mode.regex opts) r && (p.all reSafe))
       (!safe comps || match patternToMatcher facts rootName p with
        | none => true       -- compile error: nothing to compare
-       | some mt => names.all fun m => mt.run m == structMatch comps segs m) &&
+       | some mt => names.all fun m => mt.run m == structMatch opts comps segs m) &&
       (!safe [] || match patternToMatcher facts [] p with
        | none => true
-       | some mt => names.all fun m => mt.run (base m) == structMatch [] segs (base m))
+       | some mt => names.all fun m => mt.run (base m) == structMatch opts [] segs (base m))
 
 def step (line : String) : String :=
   match line.splitOn " " with
